@@ -326,6 +326,20 @@ func (s *scen) who(addr string) string {
 	return addr
 }
 
+func (s *scen) vaultUsesSlashedValidator(vault string) bool {
+	addr, err := sdk.AccAddressFromBech32(vault)
+	if err != nil {
+		return false
+	}
+	for _, d := range s.w.Keepers.StakingKeeper.GetAllDelegatorDelegations(s.w.Ctx, addr) {
+		v, found := s.w.Keepers.StakingKeeper.GetValidator(s.w.Ctx, d.GetValidatorAddr())
+		if found && !v.DelegatorShares.Equal(sdk.NewDecFromInt(v.Tokens)) {
+			return true
+		}
+	}
+	return false
+}
+
 func (s *scen) slashed(i int) bool {
 	v, found := s.w.Keepers.StakingKeeper.GetValidator(s.w.Ctx, s.valAddr(i))
 	return found && !v.DelegatorShares.Equal(sdk.NewDecFromInt(v.Tokens))
@@ -467,7 +481,14 @@ func (s *scen) checkC07(site string, before *provState) []ev.Violation {
 			self = sdk.ZeroInt()
 		}
 		if !sum.Equal(self) {
-			add("I2-selfstake-vs-vault-delegation", fmt.Sprintf("provider %s: Σ entry.Stake = %s but the vault's delegation to it is %s", s.who(p), sum, self))
+			what := fmt.Sprintf("provider %s: Σ entry.Stake = %s but the vault's delegation to it is %s", s.who(p), sum, self)
+			if sum.Sub(self).Abs().LTE(sdk.NewInt(2)) && s.vaultUsesSlashedValidator(m.Vault) {
+				// one-unit discrepancies that appear when the vault stakes through a slashed validator (the amount credited
+				// to the vault's delegation is derived from a share conversion): same defect class at every call site
+				out = append(out, ev.Violation{Property: "C07", Key: "I2-selfstake-rounding-after-slash", What: what + " (vault delegates to a slashed validator; op " + site + ")"})
+			} else {
+				add("I2-selfstake-vs-vault-delegation", what)
+			}
 		}
 		// I3
 		others := sdk.ZeroInt()
